@@ -45,6 +45,9 @@ def run(prog, R):
     want = {ITEM: ["oq3_parser::grammar::items::source_file_contents"], STMT: ["oq3_parser::grammar::expressions::expr_block_statements", "oq3_parser::grammar::items::block_or_statement"]}
     for f in (ITEM, STMT):
         R.ob("C16.2-statement-loops", short(f), callers[f] == want[f], prog.body(f).at, f"callers of {short(f)}: {[short(x) for x in callers[f]]} (expected {[short(x) for x in want[f]]})")
+    import C01
+    C01.lookahead_relative(prog, R, "C16.4-position-independent-lookahead")
+    C01.composite_jointness(prog, R, "C16.4-composite-lookahead")
     # ---- C16.3 a block statement ends at its closing brace: `{ } k ...` parsed in statement position leaves k as the
     # next token, for every token kind k.  (If the expression machinery went on after a statement-level block - a
     # postfix `(`/`[`, a binary operator - the block and the following statement would merge into one statement and
